@@ -1,14 +1,16 @@
 #!/bin/bash
 # tools/refactor_matrix.sh: behaviour-preserving edits (seeded/refactors/*.diff) must never raise a VIOLATION (exit 0 or 2 only).
-cd /verif
+V=/verif
+if [ "${SNAP:-0}" = 1 ]; then V=/tmp/verif-snap-rf; rm -rf $V; mkdir -p $V/build/kani; rsync -a --exclude build --exclude replays --exclude .git /verif/ $V/; rsync -a /verif/build/kani/cache $V/build/kani/; fi
+cd $V
 PROPS=$(python3 -c "import sys; sys.path.insert(0,'lib'); import props; print(' '.join(sorted(props.PROPS)))")
 for f in seeded/refactors/*.diff; do
   n=$(basename $f .diff); D=/tmp/rfrun/$n; rm -rf $D; mkdir -p $D; rsync -a --exclude target --exclude .git /repo/ $D/
-  (cd $D && patch -p1 -s < /verif/$f) || { echo "refactor=$n PATCH-FAILED"; continue; }
+  (cd $D && patch -p1 -s < $V/$f) || { echo "refactor=$n PATCH-FAILED"; continue; }
   for p in $PROPS; do
     out=$(VERIF_NO_WITNESS=${NOWIT:-0} ./check $p --repo $D 2>&1); rc=$?
     [ $rc -ne 0 ] && echo "refactor=$n prop=$p rc=$rc $(echo "$out" | grep "^obligation failed\|^INCONCLUSIVE" | cut -c1-160 | tr '\n' ';')"
   done
   echo "refactor=$n done"
-  rm -rf $D /verif/build/native/$(python3 -c "import hashlib,os;print(hashlib.sha256(os.path.abspath('$D').encode()).hexdigest()[:8])") /verif/build/kani/$(python3 -c "import hashlib,os;print(hashlib.sha256(os.path.abspath('$D').encode()).hexdigest()[:8])")
+  rm -rf $D $V/build/native/$(python3 -c "import hashlib,os;print(hashlib.sha256(os.path.abspath('$D').encode()).hexdigest()[:8])") $V/build/kani/$(python3 -c "import hashlib,os;print(hashlib.sha256(os.path.abspath('$D').encode()).hexdigest()[:8])")
 done
